@@ -340,6 +340,25 @@ def replay_witness(unit_name, case, ob):
             fails.append("misaligned centres accepted")
         except InconsistentPatchesError:
             pass
+        # three catalogs: an aligned catalog with wide patches between the reference and a misaligned one must not hide the
+        # misalignment (every catalog is checked against the radii of the reference patches)
+        cen = cat.get_centers()
+        cra, cdec = np.rad2deg(cen.ra), np.rad2deg(cen.dec)
+        rmax = float(np.rad2deg(np.max(cat.get_radii().data)))
+        k4 = np.arange(len(cra))
+        wide = yaw.Catalog.from_dataframe(f"{tmp}/wide", pd.DataFrame(dict(ra=np.tile(cra, 2), dec=np.concatenate([cdec - 3 * rmax, cdec + 3 * rmax]), pid=np.tile(k4, 2))),
+                                          ra_name="ra", dec_name="dec", patch_name="pid")
+        off = yaw.Catalog.from_dataframe(f"{tmp}/off", pd.DataFrame(dict(ra=cra, dec=cdec + 0.75 * rmax, pid=k4)), ra_name="ra", dec_name="dec", patch_name="pid")
+        for label, order in (("reference, wide aligned, misaligned", (cat, wide, off)), ("misaligned, wide aligned, reference", (off, wide, cat))):
+            try:
+                yaw.correlation.measurements.PatchLinkage.from_catalogs(cfg, *order)
+                fails.append(f"misaligned third catalog accepted ({label})")
+            except InconsistentPatchesError:
+                pass
+        try:
+            yaw.correlation.measurements.PatchLinkage.from_catalogs(cfg, cat, wide)
+        except InconsistentPatchesError:
+            fails.append("aligned catalog with wide patches refused")
     finally:
         shutil.rmtree(tmp, ignore_errors=True)
     return {"reproduced": bool(fails), "failed": fails[:8], "note": "real catalogs created from 4 given centres with position-sorted input in small chunks"}
@@ -350,9 +369,67 @@ def bounded(opts):
     t0 = time.time()
     r = replay_witness(None, {}, {})
     return dict(kind="bounded", bound="2 catalogs (with/without weights) of 400 records from 4 given centres, input sorted by position and read in chunks of 64; "
-                "re-partitioning with the reported centres; id-set and centre-distance guards", evaluations=2 * 4 * 5 + 2,
-                distinct_nontrivial=2 * 4 * 5 + 2, violations=[dict(id="bounded:metadata", detail=f) for f in r["failed"]], samples=["centres at ra 5,35,15,25 deg"],
+                "re-partitioning with the reported centres; id-set and centre-distance guards (two and three catalogs, a wide aligned catalog "
+                "before a misaligned one)", evaluations=2 * 4 * 5 + 5,
+                distinct_nontrivial=2 * 4 * 5 + 5, violations=[dict(id="bounded:metadata", detail=f) for f in r["failed"]], samples=["centres at ra 5,35,15,25 deg"],
                 wall_s=round(time.time() - t0, 2), note="real library; labelled bounded, not counted as proved")
+
+
+def u_rejects_misaligned(ctx, ncat, ref):
+    """composite, with the real consistency check inside the real from_catalogs (whatever its internal structure): the linkage is
+    refused with InconsistentPatchesError if and only if for some other catalog and some patch the centre of that catalog's
+    patch is farther from the reference centre than half the radius of the *reference* patch - for every catalog taking part,
+    in whatever order they are given (reference = the catalog with the most records)"""
+    from . import C01 as _C01
+    from .common import use_loops, LoopSpec
+    from pyvc.unit import find_site
+    M = mod("yaw.correlation.measurements")
+    C = mod("yaw.catalog.catalog")
+    N = ctx.fresh_int("num_patches", lo=1, size=True)
+    nrecs = [ctx.fresh_int(f"num_records_{k}", lo=1) for k in range(ncat)]
+    for k in range(ncat):
+        if k != ref:
+            ctx.assume(nrecs[ref].t > nrecs[k].t, "pre:the reference catalog has the most records (no ties)")
+    cats = [_C01.CatFx(ctx, f"cat{k}", N, nrecs[k]) for k in range(ncat)]
+    I, R = z3.IntSort(), z3.RealSort()
+    dfun = {}
+
+    def dist(tag_a, i, tag_b, j):
+        key = tuple(sorted((tag_a, tag_b)))
+        f = dfun.setdefault(key, z3.Function(f"d_{key[0]}_{key[1]}", I, I, R))
+        if tag_a == tag_b:
+            return z3.If(i <= j, f(i, j), f(j, i))
+        return f(i, j) if (tag_a, tag_b) == key else f(j, i)
+    ctx.ghost["centre_dist"] = dist
+    t = bv("t")
+    rc = cats[ref]
+    ctx.assume(forall([t], z3.Implies(z3.And(t >= 0, t < N.t), rc.rad(t) > 0), patterns=[rc.rad(t)]), "pre:positive reference radii")
+    for c in cats:
+        if c is not rc:
+            ctx.assume(forall([t], z3.Implies(z3.And(t >= 0, t < N.t), dist(rc.tag, t, c.tag, t) >= 0)), "metric:distances are not negative")
+    theta = ctx.fresh_real("theta_link")
+    ctx.assume(theta.t >= 0, "contract:get_max_angle is an angle")
+    th = _C01.dists(SArr((1,), lambda q: theta.t, "f"))
+    name = "C12/from_catalogs.rejects_misaligned"
+
+    class Links:
+        def __init__(self, config, patch_links):
+            self.config, self.patch_links = config, patch_links
+    site = find_site("yaw.correlation.measurements:PatchLinkage.from_catalogs", "zip(patch_ids")
+    specs = {site: LoopSpec(inv=lambda L: True, fresh={"patch_links": lambda L: _C01.LinksMap(ctx)})}
+    with Patches() as pt, use_loops(specs):
+        pt.set(M, "get_max_angle", lambda config: th)
+        ctx.canary()
+        res = call(M.PatchLinkage.from_catalogs.__func__, Links, "CFG", *cats)
+    far = Or(*[SBool(z3.Exists([t], z3.And(t >= 0, t < N.t, dist(rc.tag, t, c.tag, t) > rc.rad(t) / 2))) for c in cats if c is not rc])
+    if isinstance(res, Raised):
+        ctx.cover("rejects")
+        ctx.check(f"{name}/post_exc[InconsistentPatchesError]:only_if_some_catalog_is_misaligned", And(isinstance(res.exc, C.InconsistentPatchesError), far),
+                  detail=f"raised {type(res.exc).__name__}: {res.exc}")
+    else:
+        ctx.cover("accepts")
+        ctx.check(f"{name}/post:accepted_only_if_every_catalog_is_aligned_with_the_reference", Not(far),
+                  detail="some centre of another catalog is farther than half the reference patch radius from the reference centre, yet the linkage was built")
 
 
 # every participating catalog is checked against the reference before anything is linked (the C01 unit on
@@ -361,6 +438,8 @@ def _register_shared():
     from . import C01 as _C01
     unit(P, "from_catalogs.consistency_check_covers_every_catalog", fuc=["yaw.correlation.measurements:PatchLinkage.from_catalogs"],
          cases=[dict(ncat=n) for n in (2, 3)], trusted=["metric axioms", "itertools.compress"])(_C01.u_links)
+    unit(P, "from_catalogs.rejects_misaligned", fuc=["yaw.correlation.measurements:PatchLinkage.from_catalogs", "yaw.correlation.measurements:check_patch_conistency"],
+         cases=[dict(ncat=n, ref=r) for n in (2, 3) for r in range(n)], trusted=["abstract metric between centres"])(u_rejects_misaligned)
 
 
 # _register_shared() is called by the driver after this module is fully imported (no import cycles)
